@@ -19,42 +19,44 @@ Inductive value :=
   | VDumped (text : str)               (* dict / list: json.dumps(v) *)
   | VOther (text : str).               (* anything else: str(v) *)
 
-(* format_quotes(value, q) for a Python string q of length <= 1 *)
-Definition fquote (q : str) (s : str) : str := q ++ s ++ q.
 (* value.replace(q, q*2); Python: replacing "" by "" is the identity *)
 Definition qdouble (q : str) (s : str) : str :=
   match q with
   | [c] => dbl c s
   | _ => s
   end.
+(* utils.format_quotes(value, q) for a Python string q of length <= 1: an embedded quote character is doubled *)
+Definition fquote (q : str) (s : str) : str := q ++ qdouble q s ++ q.
 
-Fixpoint fmt_plain (q : str) (v : value) : str :=
+(* ValueWrapper.get_formatted_value; my = (ctx.dialect == Dialects.MYSQL): backslashes doubled in str / dict / list values *)
+Definition bsd (my : bool) (s : str) : str := if my then dbl 92 s else s.
+Fixpoint fmt_plain (my : bool) (q : str) (v : value) : str :=
   match v with
-  | VStr s => fquote q (qdouble q s)
+  | VStr s => fquote q (bsd my s)
   | VInt z => Z_to_str z
   | VBool b => if b then L "true" else L "false"
   | VNone => L "null"
   | VNumText s => s
-  | VIso s => fquote q (qdouble q s)
-  | VTime s _ => fquote q (qdouble q s)
-  | VUuid s => fquote q (qdouble q s)
+  | VIso s => fquote q (bsd my s)
+  | VTime s _ => fquote q (bsd my s)
+  | VUuid s => fquote q (bsd my s)
   | VDatePart t => t
-  | VEnum v' => fmt_plain q v'
-  | VDumped t => fquote q t
+  | VEnum v' => fmt_plain my q v'
+  | VDumped t => fquote q (bsd my t)
   | VOther t => t
   end.
 
 (* get_value_sql of the three wrapper classes; q = ctx.secondary_quote_char or "" *)
-Definition value_sql (w : wcls) (q : str) (v : value) : str :=
+Definition value_sql (w : wcls) (my : bool) (q : str) (v : value) : str :=
   match w with
-  | WPlain => fmt_plain q v
-  | WSQLite => match v with VBool b => if b then L "1" else L "0" | _ => fmt_plain q v end
+  | WPlain => fmt_plain my q v
+  | WSQLite => match v with VBool b => if b then L "1" else L "0" | _ => fmt_plain my q v end
   | WMySQL =>
     match v with
-    | VStr s => fquote q (dbl 92 (qdouble q s))
+    | VStr s => fquote q (dbl 92 s)
     | VTime _ s' => fquote q s'
     | VDumped t => dbl 92 (fquote q t)
-    | _ => fmt_plain q v
+    | _ => fmt_plain my q v
     end
   end.
 
@@ -67,12 +69,24 @@ Definition should_parameterize (v : value) : bool :=
   end.
 
 (* JSON term *)
-Inductive json := JStr (s : str) | JOther (text : str) (* str(v): ints, floats, True/False/None *)
+Inductive json := JStr (s : str) | JNull | JBool (b : bool) | JOther (text : str) (* str(v): ints, floats *)
                 | JArr (l : list json) | JObj (l : list (json * json)).
+
+(* json.dumps(s, ensure_ascii=False): the double quote, the backslash and the control characters below 0x20 are escaped *)
+Definition hexdig (n : N) : char := if n <? 10 then 48 + n else 87 + n.
+Definition json_esc_char (c : char) : str :=
+  if c =? 34 then [92; 34] else if c =? 92 then [92; 92]
+  else if c =? 10 then [92; 110] else if c =? 13 then [92; 114] else if c =? 9 then [92; 116]
+  else if c =? 8 then [92; 98] else if c =? 12 then [92; 102]
+  else if c <? 32 then [92; 117; 48; 48; hexdig (c / 16); hexdig (c mod 16)]
+  else [c].
+Definition json_str (s : str) : str := [34] ++ flat (map json_esc_char s) ++ [34].
 
 Fixpoint json_sql (j : json) : str :=
   match j with
-  | JStr s => fquote [34] s
+  | JStr s => json_str s
+  | JNull => L "null"
+  | JBool b => if b then L "true" else L "false"
   | JOther t => t
   | JArr l => [91] ++ join [44] (map json_sql l) ++ [93]
   | JObj l => [123] ++ join [44] (map (fun kv => json_sql (fst kv) ++ [58] ++ json_sql (snd kv)) l) ++ [125]
